@@ -349,7 +349,9 @@ PROPS['C02'] = {
     'level_text': ('Kernel-checked for all schedules, thread counts, message counts and sizes (sys >= 1000): no message is ever delivered corrupt or mixed, delivered '
                    '=> complete and its send returned Ok, Ok sends are in the first-packet order which is consumed exactly once in order, and a send that returned '
                    'before another began precedes it; the model is replayed against real gated threads of the crate'),
-    'level_note': 'Trusted: Lean kernel, harness gate/interposer, kernel FIFO+atomicity; sender/receiver step functions hand-modelled (tied by schedule replay) with arithmetic bridged to generated definitions',
+    'level_note': ('Trusted: Lean kernel, harness gate/interposer, kernel FIFO+atomicity; sender/receiver step functions hand-modelled (tied by schedule replay) with arithmetic '
+                   'bridged to generated definitions; the interleaving model carries payload ranges only - that a delivered message comes with exactly its own attachments is the '
+                   'separate theorem C12_own_attachments over the regenerated handling of recv\'s attachment vectors, and is exercised by the crash scenario'),
 }
 PROPS['C12'] = {
     'modules': ['IpcModel.Props.C12'],
@@ -376,9 +378,11 @@ def crash_scen(tier, seed):
 
 # delivery must not depend on which receive call is used: single-threaded scripts with recv / try_recv / try_recv_timeout (timed) and
 # handle-carrying programs (world) are part of C02 as well
-PROPS['C02']['scenarios'] = (lambda *fs: (lambda tier, seed: [x for f in fs for x in f(tier, seed)]))(sched_scen(480, 12000), timed_scen_late(['default'], 120, 3000), world_scen_late(['default'], 100, 2000))
+PROPS['C02']['scenarios'] = (lambda *fs: (lambda tier, seed: [x for f in fs for x in f(tier, seed)]))(sched_scen(480, 12000), timed_scen_late(['default'], 120, 3000), world_scen_late(['default'], 100, 2000),
+                             lambda tier, seed: [{'args': ['set', '--seed', str(seed + 7), '--n', str(600 if tier == 'thorough' else 40), '--tier', tier]}])
 PROPS['C02']['rule'] += ('; plus timed scripts (every queued message must be returned, in order, by whichever of recv / try_recv / try_recv_timeout is issued, also after the last '
-                         'sender is gone) and world programs compared with the specification')
+                         'sender is gone), world programs compared with the specification, and receiver-set scripts (delivery through select: per-member order and exactly-once, incl. '
+                         'many members ready at once and one batch of several MiB, then silence)')
 PROPS['C12']['scenarios'] = (lambda old: (lambda tier, seed: old(tier, seed) + crash_scen(tier, seed)))(sched_scen(240, 6000))
 PROPS['C12']['rule'] += ('; crash: a spawned sender process is killed by its interposer immediately before counted system call k (socketpair, every sendmsg/send, every '
                          'close) of one send, for every k, for shapes of 1..6 packets, with/without an attachment, with 0 or 1 surviving sender handle in another process, '
@@ -699,7 +703,7 @@ PROPS['C05'] = {
 PROPS['C18'] = {
     'modules': ['IpcModel.Props.C18'],
     'theorems': ['C18.C18_recv_bounds', 'C18.C18_protocol', 'C18.C18_slices', 'C18.C18_cmsg_writer', 'C18.C18_cmsg_reader', 'C18.C18_shm_pairing',
-                 'C18.C18_shm_zero', 'C18.C18_shape', 'Bounds.follow_spec', 'Frag.sendLoop_firstFits', 'Frag.recvMsg_shape'],
+                 'C18.C18_shm_zero', 'C18.C18_shape', 'C18.C18_unsafe_inventory', 'Bounds.follow_spec', 'Frag.sendLoop_firstFits', 'Frag.recvMsg_shape'],
     'builds': ['default', 'memfd'],
     'scenarios': plus(frag_scen('c18', [4608, 8192], [4608, 8192, 65536, 0]), shm_scen(['default', 'memfd'], 120, 3000),
                       lambda tier, seed: [{'args': ['crash', '--shape', '1', '--tier', tier]}]),
